@@ -109,6 +109,14 @@ def catalogue(n, origin=0, rng=None):
     out.append(SpanSpec('pd.DatetimeIndex[D]', (lambda n=n, o=origin: pd.date_range(start=f'{2001 + o}-02-27', periods=n, freq='D')),
                         [[d, d.strftime('%Y-%m-%d')] for d in dd], [pd.Timestamp('1999-01-01'), '1999-01-01'],
                         text_labels=[d.strftime('%Y-%m-%d') for d in dd]))
+    # DatetimeIndex without a regular frequency (dates read from a file, trading days with gaps): freq is None
+    gaps = [0, 1, 2, 5, 6, 7, 8, 9, 12, 13, 14, 15, 16, 19, 20, 21][:n]
+    if len(gaps) == n:
+        base = pd.Timestamp(f'{2003 + origin}-03-03')
+        irr = [base + pd.Timedelta(days=g) for g in gaps]
+        out.append(SpanSpec('pd.DatetimeIndex irregular', (lambda a=irr: pd.DatetimeIndex(a)), [[d, d.strftime('%Y-%m-%d')] for d in irr],
+                            [pd.Timestamp('1999-01-01'), '1999-01-01', base + pd.Timedelta(days=3), (base + pd.Timedelta(days=4)).strftime('%Y-%m-%d')],
+                            text_labels=[d.strftime('%Y-%m-%d') for d in irr]))
     # text labels that are prefixes of / differ by blanks, quotes or case from each other (lists and NumPy string arrays)
     tricky = ['2000 Q1', '2000 Q2', 'x', 'xy', 'xyz', "q'1", 'Q"2', 'X', 'x y', 'Xy'][:n]
     tricky_absent = ['2000 Q1 ', '2000 Q', ' x', 'x ', 'xy\t', 'XY', 'xY', '2000 Q10', 'xyz\n']
